@@ -174,7 +174,7 @@ func (e *NeutralEngine) GetValMainAddress() common.Address { return e.Coinbase }
 
 // Node is one in-memory node without networking.
 type Node struct {
-	DB      *youdb.MemDatabase
+	DB      youdb.Database
 	Chain   *core.BlockChain
 	Mux     *event.TypeMux
 	Staking *staking.Staking
@@ -182,7 +182,7 @@ type Node struct {
 }
 
 // NewNodeOn assembles a node over an existing database (restart) or a fresh one.
-func NewNodeOn(db *youdb.MemDatabase, g *core.Genesis, eng consensus.Engine) (*Node, error) {
+func NewNodeOn(db youdb.Database, g *core.Genesis, eng consensus.Engine) (*Node, error) {
 	Init()
 	if _, err := core.SetupGenesisBlock(db, NetworkID, g); err != nil {
 		return nil, fmt.Errorf("SetupGenesisBlock: %v", err)
